@@ -1,0 +1,14 @@
+//go:build verif
+
+package lower
+
+import "github.com/gogpu/naga/ir"
+
+// VerifStageHook, when set, observes the module after each lowering stage.
+var VerifStageHook func(stage string, m *ir.Module)
+
+func verifStage(stage string, m *ir.Module) {
+	if VerifStageHook != nil {
+		VerifStageHook(stage, m)
+	}
+}
